@@ -10,20 +10,20 @@ CHECKS = {
  "C01": ("reng", "exploration", "runtime monitoring: reference-model oracle over generated histories on the real replica engine",
          "Held on the generated histories: every read (read-back after each write, random reads, full-volume reads at quiescent points, after every chain mutation and reopen/reload) equals a sector-stamped reference model; controller range check exercised on the controller engine. Exploration, not proof: reach comes from the history generator's bias (alignment classes, ownership-straddling writes, chain mutations, reopen with and without preload, reclamation on/off).",
          "Sequential per replica; ext4 4 KiB; stamps make every sector identify the write it holds.", "DESIGN.md 4/C01"),
- "C06": ("reng", "exploration", "runtime monitoring: revert-on-copy image comparison of every retained user snapshot at quiescent points",
-         "Held on the generated histories: at every quiescent point the image of every retained user-created snapshot, obtained by reverting an extent-exact copy of the directory with the real code, equals the image recorded at creation; in-place reverts are compared with the image as well.",
+ "C06": ("reng", "exploration", "runtime monitoring: revert-on-copy image comparison of every retained user snapshot at quiescent points; Controller.Revert through REST on real processes followed by a full read",
+         "Held on the generated histories: at every quiescent point the image of every retained user-created snapshot, obtained by reverting an extent-exact copy of the directory with the real code, equals the image recorded at creation; in-place reverts are compared with the image as well; on real replica processes every user snapshot taken through the controller had the model's image on every replica, kept it through deletions, a rebuild and cleaner merges, and a volume revert through the controller read back exactly that image.",
          "Reclamation on in 80% of cases; automatic snapshots are not verdict-bearing.", "DESIGN.md 4/C06"),
  "C10": ("reng", "exploration", "runtime monitoring: counter model compared after every step; concurrent writers with bounds on concurrent samples",
          "Held on the generated histories: cached and persisted revision counter equal a model (+1 per applied write in RW, +0 in WO, explicit sets only in RW) after every step, across reopen, and under 2-16 concurrent writers (final == initial + N*M, concurrent samples between completed and issued).",
          "Crash points of the counter update are covered by C08; promotion equalisation by the controller engine.", "DESIGN.md 4/C10"),
- "C11": ("reng", "exploration", "runtime monitoring: cleaner-filter output checked against the property's predicate + before/after image comparison around deletions",
-         "Held on the generated histories: every name returned by the real candidate filter satisfies the property's predicate on the model chain; deletions through the cleaner route and the user route leave the live image and all retained user snapshots unchanged.",
-         "The 60 s ticker loop is not run; its body is executed through the same exported functions.", "DESIGN.md 4/C11"),
+ "C11": ("reng", "exploration", "runtime monitoring: cleaner-filter output checked against the property's predicate + before/after image comparison around deletions; on real processes a watcher over every replica's REST state checks each background removal against the predicate",
+         "Held on the generated histories: every name returned by the real candidate filter satisfies the property's predicate on the model chain; deletions through the cleaner route and the user route leave the live image and all retained user snapshots unchanged; in the real-process scenario (user deletions through the controller, a rebuild, the replicas' own cleaners merging under writes) every observed background removal satisfied the predicate and live data and retained user snapshots stayed equal to the model on every replica.",
+         "The real cleaner loop (60 s ticker) runs in two replica-engine workers with a failing fold and, untouched, inside the real replica processes of the cluster scenario; its retention count is lowered only in the replica-engine workers.", "DESIGN.md 4/C11"),
  "C12": ("reng", "exploration", "runtime monitoring: chain well-formedness + model equality after every valid and hostile management request, and across close/open",
          "Held on the generated request sequences: after every request (valid, refused or no-op) the chain equals the model chain, is a simple path whose members all have data and metadata files, attributes and full read are unchanged by refused requests, and close+open reproduces chain, attributes, size, checkpoint and data.",
          "Replica-level API (what the REST handlers call); REST-level malformed input is C14's.", "DESIGN.md 4/C12"),
- "C16": ("reng", "exploration", "runtime monitoring: model comparison around resize requests (grow / shrink / garbage) incl. snapshot images and reopen",
-         "Held on the generated histories: growth keeps the old range and every snapshot image, the added range reads zero and accepts writes, the size survives reopen; shrink, garbage, empty and zero sizes are refused and change nothing.",
+ "C16": ("reng", "exploration", "runtime monitoring: model comparison around resize requests (grow / shrink / garbage) incl. snapshot images, reopen and a copy of the directory taken when the call returns",
+         "Held on the generated histories: growth keeps the old range and every snapshot image, the added range reads zero and accepts writes, the size survives reopen and is already on disk when the call returns; shrink, garbage, empty and zero sizes are refused and change nothing.",
          "Replica side on the real engine; the controller side of Resize is exercised by the controller engine.", "DESIGN.md 4/C16"),
  "C17": ("reng", "exploration", "runtime monitoring: state-walk with every operation probed in every state, side effects detected by directory hash and counter",
          "Held on the generated walks over closed / open-without-mode / RW / WO: I/O and management calls fail on a closed replica without touching the directory, writes are applied only in RW/WO, chain surgery and counter updates are refused outside RW without side effects.",
@@ -52,8 +52,8 @@ CHECKS = {
  "C08": ("crashpt", "fault_enumeration", "runtime monitoring with ptrace-level fault injection: strace kills the victim before every state-changing syscall of the operation and fails every call once; a checker process reopens the directory with the real code",
          "For the sampled (pre-state, operation) pairs every syscall boundary of the operation was enumerated: after process death before each state-changing call the directory reopened (with and without preload) with the chain before or after, acknowledged data and retained user snapshots unchanged and the counter not decreased; with each call failing once (ENOSPC; thorough also EIO) no operation reported success over a state other than the complete after-state and none left an unopenable directory; the durability lint (directory fsync after every directory-entry change, O_SYNC metadata temp files) passed on every reference trace.",
          "Process death, not power loss; syscall boundaries of the operation's own thread; pre-states and operations are sampled, boundaries within them are exhaustive.", "DESIGN.md 4/C08"),
- "C14": ("restfuzz", "exploration", "runtime monitoring: journalled request fuzzing of both REST routers with panic capture, liveness probe and TryLock after every request, child-process death detection",
-         "Held on the request matrix (all routes x methods x body classes x id classes x controller/replica states, each pair on a fresh state, plus drifting sequences): no request terminated the process, made a handler panic, failed to return, left the liveness request unanswered or left the controller/replica mutex held.",
+ "C14": ("restfuzz", "exploration", "runtime monitoring: journalled request fuzzing of both REST routers (single requests, concurrent bursts, two-request lock convoys released in a chosen order) with panic capture, liveness probe and TryLock after every request, child-process death detection",
+         "Held on the request matrix (all routes x methods x body classes x id classes x controller/replica states, each pair on a fresh state, plus drifting sequences, bursts of concurrent well-formed requests and lock convoys): no request terminated the process, made a handler panic, failed to return, left the liveness request unanswered or left the controller/replica mutex held.",
          "Handlers run in-process through router.ServeHTTP; outbound calls hit loopback addresses that refuse at once or the scripted replicas' stubs.", "DESIGN.md 4/C14"),
  "C15": ("rpcsim", "exploration", "runtime monitoring: real rpc.Client/Wire/Server against a scripted peer with an independent codec; porcupine linearizability check of end-to-end histories",
          "Held on the generated scenarios: frames round-tripped unchanged in both directions (also with concurrent writers), every call received exactly the reply generated for its own request under bounded reordering, duplicates and unknown sequence numbers; end-to-end histories through the real server were linearizable per block; after a stall, a late reply, close, reset or garbage every pending and later call failed, no request was sent twice and the failure was reported on the close channel.",
@@ -61,7 +61,7 @@ CHECKS = {
  "C07": ("cluster", "exploration", "runtime monitoring on real processes: kill/stop -> restart -> rebuild cycles under foreground writes; round-robin read sweep + extent-exact directory comparison at promotion; sampled mode timeline",
          "Held (apart from the listed known finding F11) on the executed rebuild cycles: when the rebuilt replica was first listed RW every chunk read at every reader position equalled the model of acknowledged writes (the promoted replica serves through its live block map), its stored live image and every user snapshot were byte-identical to the source's and equal to the model, revision counters and chains were equal, never two replicas were WO at once, and a restarted replica only became RW after its process ran reload-and-verify.",
          "Schedules come from OS timing, seeded and log-marker-triggered kills; bounded waits expiring are inconclusive.", "DESIGN.md 4/C07"),
- "C19": ("cluster", "exploration", "runtime monitoring on real processes: clone replica started against a live source volume; replica-side status sampling; image and counter comparison at completion",
+ "C19": ("cluster", "exploration", "runtime monitoring on real processes: clone replica started against a live source volume; replica-side status sampling every 3 ms (RW implies completed; completed implies not rebuilding, full chain, counter of S); image and counter comparison at completion",
          "Held on the executed clone scenarios (snapshot at varying chain positions; no fault, source writes during the copy, source killed, clone killed, non-existent snapshot): the clone never reported mode RW without status completed, the completed clone read back exactly the snapshot image (model and revert-on-copy of the source directory), carried the revision counter recorded for the snapshot and accepted writes; a clone that cannot succeed was never served.",
          "The new controller holds its lock while polling, so intermediate states are sampled at the clone replica's REST endpoint.", "DESIGN.md 4/C19"),
 }
@@ -90,7 +90,7 @@ def main():
         "kind_free_text": "real controller/rest and replica/rest routers driven in-process; journal-before-execute, panic capture, liveness + TryLock oracle; action-table matrix and attach rule with the real remote.Factory"},
        {"name": "rpcsim", "path": "harness/internal/rpcsim", "serves_properties": ["C15"],
         "kind_free_text": "real rpc.Client / rpc.Wire / rpc.Server over loopback TCP against a scripted peer with an independent frame codec; porcupine for end-to-end histories"},
-       {"name": "cluster", "path": "harness/internal/cluster", "serves_properties": ["C05", "C07", "C09", "C13", "C19"],
+       {"name": "cluster", "path": "harness/internal/cluster", "serves_properties": ["C05", "C06", "C07", "C09", "C10", "C11", "C12", "C13", "C19"],
         "kind_free_text": "in-process controller with the real remote factory + REST server, real jiva replica and sync-agent OS processes on their own loopback addresses, supervisor-style kill/restart, model of acknowledged writes"},
        {"name": "ctlsim", "path": "harness/internal/ctlsim", "serves_properties": ["C01", "C02", "C03", "C04", "C05", "C09", "C13", "C16", "C18"],
         "kind_free_text": "real controller.Controller over scripted types.Backend fakes (per-call outcome scripts, applied logs, remote.Remote-like monitor channel) + HTTP stubs of the replica REST API"},
